@@ -26,6 +26,7 @@ mod angle;
 mod spline;
 mod mesh;
 mod proj;
+mod vary;
 
 use std::io::{BufRead, BufWriter, Write};
 
@@ -80,6 +81,7 @@ fn subsystem(name: &str) -> Option<(GenFn, ExecFn)> {
         "spline" => (spline::gen, spline::exec),
         "mesh" => (mesh::gen, mesh::exec),
         "proj" => (proj::gen, proj::exec),
+        "vary" => (vary::gen, vary::exec),
         _ => return None,
     })
 }
